@@ -159,6 +159,26 @@ def split_join_cond(on: ColFn) -> list[ColFn]:
         return [on]
 
 
+# Whether an equality predicate compares an expression over one of the tables with an
+# expression over the other table (or with a constant), so that it can serve as the
+# key of a hash join. `u.a == u.b` or `t.a + u.a == 3` cannot.
+def is_hash_join_key(pred: ColFn, right_uuids: set[UUID]) -> bool:
+    if pred.op != ops.equal:
+        return False
+    sides = []
+    for arg in pred.args:
+        uuids = {e._uuid for e in arg.iter_subtree_postorder() if isinstance(e, Col)}
+        if not uuids:
+            sides.append(None)
+        elif uuids <= right_uuids:
+            sides.append(True)
+        elif uuids.isdisjoint(right_uuids):
+            sides.append(False)
+        else:
+            return False
+    return sides[0] != sides[1]
+
+
 # Returns the left and right columns of a list of equality predicates.
 def get_left_right_on(
     eq_predicates: list[ColFn], left_uuids: set[UUID], right_uuids: set[UUID]
